@@ -617,6 +617,10 @@ class Suspended(Exception):
     """A coroutine that had to finish synchronously suspended."""
 
 
+class Deadlocked(Exception):
+    """A hand-driven coroutine waits for a lock that nobody is left to release."""
+
+
 class Driver:
     """Drives awaitables by hand. No event loop.
 
@@ -659,6 +663,14 @@ class Driver:
                 send = None
                 continue
             w.pending.remove(tok)
+            if tok.kind == "block" and tok.lock is not None and tok.lock.held:
+                # single driver: nobody else can release the lock
+                w.bad("deadlock:waiting-for-a-lock-that-is-never-released")
+                try:
+                    it.close()
+                except BaseException:
+                    pass
+                raise Deadlocked()
             if self.cancel_at and self.nsusp == self.cancel_at and not self.cancelled:
                 self.cancelled = True
                 throw = self.cancel_exc
